@@ -102,9 +102,9 @@ func TestVerifC18FeeFunction(t *testing.T) {
 
 		// Starting rate option.
 		startKind := rapid.SampledFrom([]string{
-			"none", "none", "none", "some_below", "some_below",
-			"some_equal", "some_just_below", "some_above",
-			"some_below_relay",
+			"none", "none", "none", "none", "some_below", "some_below",
+			"some_below", "some_just_below", "some_above",
+			"some_below_relay", "some_equal",
 		}).Draw(t, "startKind")
 		var (
 			startOpt = fn.None[chainfee.SatPerKWeight]()
@@ -156,8 +156,9 @@ func TestVerifC18FeeFunction(t *testing.T) {
 						est, end, ct0,
 					)
 				} else {
-					some = end
-					expStart = end
+					// Mirror the excess below the ceiling.
+					some = c18Max(1, end-(some-end))
+					expStart = some
 				}
 				labels = append(labels, "f2_clamped")
 			} else {
@@ -418,7 +419,10 @@ func TestVerifC18FeeFunction(t *testing.T) {
 		}
 		labels = append(labels, "create:ok")
 
-		nontrivial := skipped >= 2 || (reachedCap && ct0 > 1)
+		// Non-trivial: the walk skips >= 2 heights, or climbs from a
+		// start strictly below the ceiling all the way to it.
+		nontrivial := skipped >= 2 ||
+			(reachedCap && ct0 > 1 && expStart < end)
 		var sample any
 		if nontrivial && st.WantSample() {
 			sample = map[string]any{
